@@ -589,3 +589,25 @@ func ParseConfig(b []byte) (Config, error) {
 	}
 	return c, nil
 }
+
+// ReadRefsDir lists refs/heads beneath goitDir: name -> file content.
+func ReadRefsDir(goitDir string) (map[string]string, error) {
+	out := map[string]string{}
+	base := filepath.Join(goitDir, "refs", "heads")
+	err := filepath.Walk(base, func(p string, info os.FileInfo, err error) error {
+		if err != nil {
+			return err
+		}
+		if info.IsDir() {
+			return nil
+		}
+		rel, _ := filepath.Rel(base, p)
+		b, err := os.ReadFile(p)
+		if err != nil {
+			return err
+		}
+		out[filepath.ToSlash(rel)] = string(b)
+		return nil
+	})
+	return out, err
+}
